@@ -11,11 +11,11 @@ _PROGS = {}
 SIZE = {"quick": 2, "thorough": 3}
 
 
-def all_programs(tier, size=None, only=None, must=None, key=None, tails=(True,)):
-    k = key or (tier, size, only and tuple(sorted(only)), must and tuple(sorted(must)), tails)
+def all_programs(tier, size=None, only=None, must=None, key=None, tails=(True,), sigs=(None,)):
+    k = key or (tier, size, only and tuple(sorted(only)), must and tuple(sorted(must)), tails, sigs)
     if k not in _PROGS:
         out = []
-        for p in M.programs(size or SIZE[tier], tier, only=only, must=must, tails=tails):
+        for p in M.programs(size or SIZE[tier], tier, only=only, must=must, tails=tails, sigs=sigs):
             try:
                 compile(p.src, "<minipy>", "exec")
             except SyntaxError:
@@ -46,6 +46,10 @@ def flags_of(src):
         fl.add("closure")
     if any(isinstance(n, (ast.Yield, ast.YieldFrom)) for n in _own_nodes(fdef)):
         fl.add("gen")
+    if fdef.args.vararg is not None:
+        fl.add("sig:rich")
+    elif fdef.args.kwonlyargs:
+        fl.add("sig:kwonly")
     return frozenset(fl)
 
 
@@ -95,7 +99,8 @@ def analyse(prog):
         return None
 
     ftab = find(st)
-    params = [a.arg for a in fdef.args.args]
+    a = fdef.args
+    params = [p.arg for p in [*a.posonlyargs, *a.args, *a.kwonlyargs, a.vararg, a.kwarg] if p is not None]
     twin_src, sites = TW.twinify(prog.src)
     bound = []
     for sid, name, form, line in sites:
